@@ -115,7 +115,7 @@ func (app *App) handleTs(w http.ResponseWriter, r *http.Request) {
 
 			n, err := frameBuffer.b.Read(rawFrame)
 
-			frame := rawFrame[:n]
+			frame := append([]byte(nil), rawFrame[:n]...) // copy: rawFrame is reused by the next flush
 
 			frameBuffer.b.Reset()
 
